@@ -47,6 +47,9 @@ def subtree(rng, gate, trace_dir):
         return off, on
     if gate == "parallel":
         on = {"perf": {"enabled": rng.random() < 0.5, "parallel": {"enabled": True, "t1": True, "t2": False, "agents": rng.random() < 0.5, "max_workers": rng.choice([2, 3, 8])}}}
+        if rng.random() < 0.5:
+            # the perf metrics gate open outside the subtree (kept in the stripped run too): the gated metrics blocks are written
+            on["perf"].update({"enabled": True, "metrics": {"report_memory": True}})
         off = copy.deepcopy(on)
         off["perf"]["parallel"]["enabled"] = False
         off["perf"]["parallel"]["t2"] = rng.random() < 0.5  # the T2 fan-out flag too, behind the closed gate
